@@ -89,6 +89,12 @@ def gen_plan(seed, index, tier):
     plan["twin_perm"] = rng.sample(range(len(rows)), len(rows)) if (index >= 50 and not kind.startswith("BGL") and rng.random() < 0.2) else None
     # history: an earlier fit of the same GridSearch object on the same X with other labels/groups
     plan["prior_rows"] = derive_rows(rng, rows) if (index >= 50 and not kind.startswith("BGL") and rng.random() < 0.25) else None
+    if kind.startswith("BGL") and index >= 50 and rng.random() < 0.35:
+        # regression: the earlier fit saw the same X and as many rows, but the rows belonged to other groups
+        groups = sorted({r[1] for r in rows})
+        pr = [(x, rng.choice(groups) if rng.random() < 0.5 else g, y) for (x, g, y) in rows]
+        if len({r[1] for r in pr}) >= 2 and [r[1] for r in pr] != [r[1] for r in rows]:
+            plan["prior_rows"] = pr
     # configuration seam: the caller supplies the multiplier grid itself (a subset of a generated grid, rescaled, under
     # column labels that are not 0..k-1), or shifts the generated grid by grid_offset; the per-column clauses
     # (request, payload, best response, records, argmin, delegation) must hold for those columns all the same
@@ -191,6 +197,11 @@ def fit_once(plan, ctx, stall=False):
             ctx.clock.force_stall = False
             return okp, retp, sitep, gs, est, X, y, g
         ctx.fault("refit_history")
+        if plan["xq"] and plan["xq"][0] != 99:
+            # ... and the caller used the earlier model (a prediction between the two fits); the judged delegation
+            # clause below must still see the model of the last fit
+            ctx.call(gs.predict, build_X(plan["xq"], plan["xform"]))
+            ctx.fault("predict_between_fits")
     ctx.oracle_log = []
     with ctx.clock_installed():
         ok, ret, site = ctx.call(gs.fit, X, wrap(plan, y, "yform", 2), sensitive_features=wrap(plan, g, "gform", 3))
